@@ -1,5 +1,191 @@
-"""end-to-end part of C07 (filled in below)"""
+"""End-to-end part of C07: near-miss type pairs meet at run time in an llgo-compiled three-package program.
+
+For a pair (t, u) the package that may spell t's unexported names provides  V<k>() any  returning (*t)(nil) boxed, the
+package for u provides  Is<k>(x any) bool { _, ok := x.(*u); return ok }  and  Eq<k>(x any) bool { return x == any((*u)(nil)) };
+main prints Is<k>(V<k>()) and Eq<k>(V<k>()): both must equal Identical(t, u) as computed by TypeIdentity.tla.
+"""
+import os
+import random
+
+from . import common as C
+
+BASIC = {"int", "uint8", "byte", "string", "int32"}
+
+
+def pkg_of(t):
+    """the package whose unexported identifiers the term spells (None if it spells none), or 'mixed'"""
+    pk = set()
+
+    def walk(x):
+        k = x["k"]
+        if k == "named":
+            for a in x["targs"]:
+                walk(a)
+        elif k in ("ptr", "slice", "array", "chan"):
+            walk(x["e"])
+        elif k == "map":
+            walk(x["key"])
+            walk(x["e"])
+        elif k == "func":
+            for a in x["params"] + x["results"]:
+                walk(a)
+        elif k == "struct":
+            for f in x["fields"]:
+                if not f["emb"] and not f["name"][:1].isupper():
+                    pk.add(f["fpkg"])
+                walk(f["type"])
+        elif k == "iface":
+            for m in x["methods"]:
+                if not m["name"][:1].isupper():
+                    pk.add(m["mpkg"])
+                walk(m["sig"])
+    walk(t)
+    if len(pk) > 1:
+        return "mixed"
+    return pk.pop() if pk else None
+
+
+def scoped(t):
+    if isinstance(t, dict):
+        if t.get("k") == "named" and t.get("scope"):
+            return True
+        return any(scoped(v) for v in t.values())
+    if isinstance(t, list):
+        return any(scoped(v) for v in t)
+    return False
+
+
+def expressible(t):
+    """only the named types the generated packages declare: T, U (plain) and G (generic, one argument)"""
+    if isinstance(t, dict):
+        if t.get("k") == "named":
+            if t["targs"]:
+                if t["name"] != "G" or len(t["targs"]) != 1:
+                    return False
+            elif t["name"] not in ("T", "U"):
+                return False
+        return all(expressible(v) for v in t.values())
+    if isinstance(t, list):
+        return all(expressible(v) for v in t)
+    return True
+
+
+def texpr(t, here):
+    k = t["k"]
+    if k == "basic":
+        return t["n"]
+    if k == "named":
+        name = t["name"] + ("[" + ", ".join(texpr(a, here) for a in t["targs"]) + "]" if t["targs"] else "")
+        return name if t["pkg"] == here else t["pkg"] + "." + name
+    if k == "ptr":
+        return "*" + texpr(t["e"], here)
+    if k == "slice":
+        return "[]" + texpr(t["e"], here)
+    if k == "array":
+        return "[%d]%s" % (t["n"], texpr(t["e"], here))
+    if k == "map":
+        return "map[%s]%s" % (texpr(t["key"], here), texpr(t["e"], here))
+    if k == "chan":
+        return {"both": "chan ", "send": "chan<- ", "recv": "<-chan "}[t["dir"]] + "(" + texpr(t["e"], here) + ")"
+    if k == "func":
+        ps = [texpr(p, here) for p in t["params"]]
+        if t["variadic"]:
+            ps[-1] = "..." + ps[-1][2:]
+        rs = [texpr(p, here) for p in t["results"]]
+        return "func(%s)%s" % (", ".join(ps), (" (" + ", ".join(rs) + ")") if rs else "")
+    if k == "struct":
+        fs = []
+        for f in t["fields"]:
+            tag = (" `%s`" % f["tag"]) if f["tag"] else ""
+            fs.append((texpr(f["type"], here) if f["emb"] else f["name"] + " " + texpr(f["type"], here)) + tag)
+        return "struct { " + "; ".join(fs) + " }"
+    if k == "iface":
+        ms = []
+        for m in t["methods"]:
+            ms.append(m["name"] + texpr(m["sig"], here)[4:])
+        return "interface { " + "; ".join(ms) + " }"
+    raise ValueError(k)
 
 
 def run(chk, thorough):
-    pass
+    res_pairs = chk.cov.get("_pairs")
+    if not res_pairs:
+        return
+    rng = random.Random(C.seed())
+    usable = []
+    for p in res_pairs:
+        if p["t"] == p["u"] or scoped(p["t"]) or scoped(p["u"]) or not expressible(p["t"]) or not expressible(p["u"]):
+            continue
+        pt, pu = pkg_of(p["t"]), pkg_of(p["u"])
+        if "mixed" in (pt, pu):
+            continue
+        usable.append((p, pt or "p1", pu or "p1"))
+    rng.shuffle(usable)
+    usable = usable[: 1500 if thorough else 350]
+    rd = chk.rd.path
+    d = os.path.join(rd, "e2e")
+    src = {"p1": ["package p1", "", 'import "c07e2e/p2"', "", "var _ p2.T", "type T struct{ x int }", "type U struct{ y int }", "type G[X any] struct{ g int }", ""],
+           "p2": ["package p2", "", "type T struct{ z int }", "type U struct{ w int }", "type G[X any] struct{ g int }", ""]}
+    main = ["package main", "", 'import (', '\t"c07e2e/p1"', '\t"c07e2e/p2"', ")", "", "var _ p2.T", "", "func main() {"]
+    expect = []
+    n = 0
+    for p, pt, pu in usable:
+        # p2 cannot import p1 (p1 imports p2): a term written in p2 may only mention p2's names
+        def mentions_p1(t):
+            if isinstance(t, dict):
+                if t.get("k") == "named" and t.get("pkg") == "p1":
+                    return True
+                return any(mentions_p1(v) for v in t.values())
+            if isinstance(t, list):
+                return any(mentions_p1(v) for v in t)
+            return False
+        if (pt == "p2" and mentions_p1(p["t"])) or (pu == "p2" and mentions_p1(p["u"])):
+            continue
+        n += 1
+        src[pt].append("func V%d() any { return (*%s)(nil) }" % (n, texpr(p["t"], pt)))
+        src[pu].append("func Is%d(x any) bool { _, ok := x.(*%s); return ok }" % (n, texpr(p["u"], pu)))
+        src[pu].append("func Eq%d(x any) bool { return x == any((*%s)(nil)) }" % (n, texpr(p["u"], pu)))
+        main.append("\tprintln(%d, %s.Is%d(%s.V%d()), %s.Eq%d(%s.V%d()))" % (n, pu, n, pt, n, pu, n, pt, n))
+        expect.append((n, p))
+    main.append("}")
+    C.write_module(d, {"p1/p1.go": "\n".join(src["p1"]) + "\n", "p2/p2.go": "\n".join(src["p2"]) + "\n",
+                       "main.go": "\n".join(main) + "\n"}, modname="c07e2e")
+    ref = os.path.join(d, "ref.exe")
+    ok, out = C.go_build(d, ref)
+    if not ok:
+        raise C.Undecided("reference toolchain rejects the generated identity program (generator bug):\n" + out[-2500:])
+    st, so, se = C.run_exe(ref, timeout=60, merge=True)
+
+    def parse(text):
+        r = {}
+        for ln in text.splitlines():
+            w = ln.split()
+            if len(w) == 3 and w[0].isdigit():
+                r[int(w[0])] = (w[1] == "true", w[2] == "true")
+        return r
+    refres = parse(so)
+    bad = [(k, p) for k, p in expect if refres.get(k) != (p["same"], p["same"])]
+    if bad:
+        raise C.Undecided("TypeIdentity disagrees with the reference toolchain at run time on %d pairs, e.g. %s" % (len(bad), bad[0]))
+    configs = [("O0", "")] + ([("O2", "")] if thorough else [])
+    from . import c07
+    for opt, tags in configs:
+        exe = os.path.join(d, "llgo-%s.exe" % opt)
+        ok, out = C.llgo_build(d, exe, opt=opt, tags=tags, rundir=d)
+        if not ok:
+            if opt == "O0":
+                raise C.Undecided("llgo cannot build the identity program:\n" + out[-3000:])
+            continue
+        st, so, se = C.run_exe(exe, timeout=60, merge=True)
+        got = parse(so)
+        for k, p in expect:
+            want = (p["same"], p["same"])
+            if got.get(k) != want:
+                kind = c07.classify(p["t"], p["u"])
+                chk.reject("runtime:%s:%s" % ("merged" if p["same"] is False else "split", kind),
+                           "at run time x.(*U) / x == (*U)(nil) gave %s for t=%s u=%s, Go: %s (config %s)" % (
+                               got.get(k), texpr(p["t"], "main"), texpr(p["u"], "main"), want, opt),
+                           {"t": p["t"], "u": p["u"], "got": got.get(k), "want": want, "config": opt})
+        chk.cov["evaluations"] += len(expect)
+        chk.cov["traces_validated_against_impl"] += len(expect)
+    chk.cov["runtime_pairs"] = len(expect)
